@@ -6,6 +6,11 @@
 #include <new>
 #include <utility>
 #include <unordered_set>
+#ifdef VP_STRVARIANT
+#include <string>
+// the one basic_string member that implicit instantiation leaves out-of-line
+template void std::__cxx11::basic_string<char>::_M_construct(std::size_t, char);
+#endif
 #include "verif.h"
 
 // operator new/delete -> malloc/free; allocation never fails (out-of-memory is outside every claim).
